@@ -15,8 +15,10 @@ Events == ndJsonDeserialize(IOEnv.TRACE_FILE)
 VARIABLES l, pos, val, hasStream
 vars == <<l, pos, val, hasStream>>
 
-FieldType(ev) == ev.type.fields[ev.field].type
-AddrOf(ev) == val.vals[ev.field].addr
+\* the pointer an event is about: field f itself, or element `elem` of field f when that is an array of pointers
+IsElem(ev) == "elem" \in DOMAIN ev /\ ev.elem > 0
+FieldType(ev) == IF IsElem(ev) THEN ev.type.fields[ev.field].type.elem ELSE ev.type.fields[ev.field].type
+AddrOf(ev) == IF IsElem(ev) THEN val.vals[ev.field].items[ev.elem].addr ELSE val.vals[ev.field].addr
 
 \* the specification has a value for the structure (the Parse of this history was accepted by Decode); when it was not, the
 \* Parse event already carries the verdict and the events after it cannot be judged
